@@ -101,6 +101,9 @@ pub const FAR2_LONG_LENGTH_THRESHOLD: usize = 64;
 /// Far3Long length threshold for variable encoding  
 pub const FAR3_LONG_LENGTH_THRESHOLD: usize = 35;
 
+/// Size in bits of the shortest encoded match (type tag + Literal length, or NearShort fields)
+pub const MIN_ENCODED_MATCH_BITS: u8 = 8;
+
 /// PA-Zip compression type enumeration
 ///
 /// Represents the 8 different compression strategies used by the PA-Zip algorithm.
@@ -1306,7 +1309,9 @@ pub fn decode_matches(buffer: &[u8]) -> Result<(Vec<Match>, usize)> {
     let mut matches = Vec::new();
     let mut total_bits = 0;
     
-    while reader.has_bits(CompressionType::type_bits()) {
+    // The shortest encoded match (Literal, NearShort) takes 8 bits, and `BitWriter::finish`
+    // pads the stream with fewer than 8 zero bits; anything shorter than 8 bits is padding.
+    while reader.has_bits(MIN_ENCODED_MATCH_BITS) {
         let (match_type, bits_consumed) = decode_match(&mut reader)?;
         matches.push(match_type);
         total_bits += bits_consumed;
